@@ -2,6 +2,7 @@
 mod c16ffi;
 mod c18;
 mod c19;
+mod legs;
 mod util;
 
 use vcommon::report::{parse_args, EXIT_INCONCLUSIVE};
